@@ -246,47 +246,6 @@ def cmdMSet (c : Ctx) (db : Db) (kvs : List (Bytes × Bytes)) (nx : Bool) : R :=
 
 /-! ### Decimal numbers for INCRBYFLOAT / HINCRBYFLOAT (never IEEE: exact rationals) -/
 
-/-- value = mant / 10^scale -/
-structure Dec where
-  mant : Int
-  scale : Nat
-  deriving Repr
-
-def splitAt46 : Bytes → Bytes × Option Bytes
-  | [] => ([], none)
-  | 46 :: r => ([], some r)
-  | c :: r => let (a, b) := splitAt46 r; (c :: a, b)
-
-def splitAtE : Bytes → Bytes × Option Bytes
-  | [] => ([], none)
-  | c :: r => if c == 101 || c == 69 then ([], some r) else let (a, b) := splitAtE r; (c :: a, b)
-
-/-- decimal `[+-]ddd[.ddd][e[+-]dd]` as Go's `ParseFloat` reads it (hex floats, inf and nan are
-    not produced by the generators and are not modelled) -/
-def parseDecimal (b : Bytes) : Option Dec :=
-  let (neg, body) := match b with
-    | 45 :: r => (true, r)
-    | 43 :: r => (false, r)
-    | r => (false, r)
-  let (mantPart, expPart) := splitAtE body
-  let (ip, fp) := splitAt46 mantPart
-  let fp' := fp.getD []
-  if (ip.isEmpty && fp'.isEmpty) || !ip.all isDigit || !fp'.all isDigit then none
-  else
-    let m : Int := digitsVal (ip ++ fp') 0
-    let m := if neg then -m else m
-    match expPart with
-    | none => some { mant := m, scale := fp'.length }
-    | some e =>
-      match parseDec e with
-      | none => none
-      | some x =>
-        if x.natAbs > 400 then none
-        else
-          let sc : Int := (fp'.length : Int) - x
-          if sc ≥ 0 then some { mant := m, scale := sc.toNat }
-          else some { mant := m * (10 : Int) ^ (-sc).toNat, scale := 0 }
-
 def Dec.add (a b : Dec) : Dec :=
   let s := max a.scale b.scale
   { mant := a.mant * (10 : Int) ^ (s - a.scale) + b.mant * (10 : Int) ^ (s - b.scale), scale := s }
